@@ -60,6 +60,18 @@ def run(rep: Report, tier: str, seed: int) -> None:
     safe = [units[n] for n in names if n not in crashers]
     rep.extra["letters_not_completing_under_default_options"] = crashers
 
+    # ---- phase 1b: every single-file letter TWICE inside one module (per-module analysis state: visited sets, caches, name tables)
+    twice = []
+    for i, n in enumerate(names):
+        if isinstance(FORMS[n], str) and n not in crashers:
+            ta, tb = next(iter(render(n, f"d{i:04d}a").values())), next(iter(render(n, f"d{i:04d}b").values()))
+            if "from __future__" in tb:
+                tb = tb.replace("from __future__ import annotations\n", "")
+            twice.append((f"twice:{n}", {f"dd{i:04d}.py": ta + "\n\n" + tb}))
+    for o in (Opts(), Opts(docstyle="NUMPYDOC", convert=True)):
+        run_packed([(twice, o)], build, record, stats)
+    rep.extra["twice_units"] = len(twice)
+
     # ---- phase 2: docstring styles x naming conversion: letters that failed before run alone, the rest packed (bisect on new failures)
     combos = [Opts(docstyle=d, convert=c) for d in ("NUMPYDOC", "GOOGLE", "REST", "PLAINTEXT") for c in (False, True)]
     combos = [o for o in combos if o != Opts()]
